@@ -124,6 +124,23 @@ fn replay(case: &Value) -> Vec<Violation> {
     let r = match op {
         "round_pair" => check_pair(m, sign_from(case["sign"].as_str().unwrap()), case["pair"][0].as_u64().unwrap() as u8, case["pair"][1].as_u64().unwrap() as u8, case["trailing_zeros"].as_bool().unwrap()),
         "round_u32" => check_u32(m, sign_from(case["sign"].as_str().unwrap()), case["value"].as_u64().unwrap() as u32, case["at_digit"].as_u64().unwrap() as u8, case["trailing_zeros"].as_bool().unwrap()),
+        _ if case.get("far").is_some() => {
+            let x = jd(&case["x"]);
+            let target: i64 = case["target_scale"].as_str().unwrap().parse().unwrap();
+            let neg = x.n.sign() == Sign::Minus;
+            let unit = match m {
+                Mode::Up => 1,
+                Mode::Ceiling => !neg as i64,
+                Mode::Floor => neg as i64,
+                _ => 0,
+            };
+            let want = BigInt::from(if neg { -unit } else { unit });
+            match guard(|| bd(&x).with_scale_round(target, rm(m))) {
+                Ok(r) if r.as_bigint_and_exponent() == (want.clone(), target) => None,
+                Ok(r) => Some(Violation::new("BigDecimal::with_scale_round", "wrong_value", case.clone(), want.to_string(), show(&r))),
+                Err(p) => Some(Violation::new("BigDecimal::with_scale_round", "panic", case.clone(), want.to_string(), p)),
+            }
+        }
         _ => {
             let x = jd(&case["x"]);
             check(Op::from_name(op), &bd(&x), &x, case["target_scale"].as_i64().unwrap(), m)
@@ -349,6 +366,96 @@ fn main() {
                             if let Some(v) = check(Op::Round, &xb, &x, target, default_mode) {
                                 run.report(v);
                             }
+                        }
+                    }
+                }
+            }
+        }
+        t
+    });
+
+    // S7: word-limit coefficients x every target inside the digits
+    let wl = word_limit_ints();
+    run.par("S7 word-limit coefficients", wl.len(), |i| {
+        let mut t = Tally::default();
+        for s in [0i128, 6] {
+            let x = Dec { n: wl[i].clone(), s };
+            sweep_decimal(&run, &x, default_mode, &mut t);
+            let xb = bd(&x);
+            let d = ndigits(&x.n) as i64;
+            for k in 1..d {
+                for m in MODES {
+                    t.transitions += 1;
+                    if let Some(v) = check(Op::WithScaleRound, &xb, &x, s as i64 - k, m) {
+                        run.report(v);
+                    }
+                }
+            }
+        }
+        t
+    });
+    // S8: carry chains of every length behind every prefix length
+    let cc = carry_chains(tier.pick(20, 40), tier.pick(24, 70));
+    run.bound("S8_carry_chains", cc.len());
+    run.par("S8 carry chains", cc.len(), |i| {
+        let mut t = Tally::default();
+        for sign in [1, -1] {
+            let x = Dec { n: big(&cc[i]) * sign, s: 3 };
+            let xb = bd(&x);
+            t.states += 1;
+            for k in [1i64, 2] {
+                for m in MODES {
+                    t.transitions += 1;
+                    t.nontrivial += 1;
+                    if let Some(v) = check(Op::WithScaleRound, &xb, &x, 3 - k, m) {
+                        run.report(v);
+                    }
+                }
+            }
+        }
+        t
+    });
+    // S9: targets astronomically far left of the digits (scale distances around 2^31, 2^32, 2^33, 2^62):
+    // the result is 0 or one unit, decided by mode and sign alone (the model needs no power of ten there)
+    run.seq("S9 extreme scale distances", || {
+        let mut t = Tally::default();
+        let mut dists: Vec<i128> = vec![];
+        for e in [31u32, 32, 33, 40, 62] {
+            for d in -2i128..=21 {
+                dists.push((1i128 << e) + d);
+            }
+        }
+        for n in [1i64, -1, 15, -15, 12345, -99999, 5, 50] {
+            for base_scale in [0i128, 7, -3, 4294967297] {
+                let x = Dec::new(n, base_scale);
+                let xb = bd(&x);
+                t.states += 1;
+                for dist in dists.iter() {
+                    let target = base_scale - dist;
+                    if target < i64::MIN as i128 {
+                        continue;
+                    }
+                    for m in MODES {
+                        t.transitions += 1;
+                        t.nontrivial += 1;
+                        let neg = n < 0;
+                        let unit = match m {
+                            Mode::Up => 1,
+                            Mode::Ceiling => !neg as i64,
+                            Mode::Floor => neg as i64,
+                            _ => 0,
+                        };
+                        let want = BigInt::from(if neg { -unit } else { unit });
+                        let got = guard(|| xb.with_scale_round(target as i64, rm(m)));
+                        let case = json!({"op": "with_scale_round", "x": x.show(), "target_scale": target.to_string(), "mode": m.name(), "far": true});
+                        match got {
+                            Ok(r) => {
+                                let (rn, rs) = r.as_bigint_and_exponent();
+                                if rn != want || rs as i128 != target {
+                                    run.report(Violation::new("BigDecimal::with_scale_round", "wrong_value", case, format!("{}e{}", want, -target), format!("{}e{}", rn, -(rs as i128))).attr("mode", m.name()));
+                                }
+                            }
+                            Err(p) => run.report(Violation::new("BigDecimal::with_scale_round", "panic", case, format!("{}e{}", want, -target), p).attr("mode", m.name())),
                         }
                     }
                 }
